@@ -118,6 +118,10 @@ func resultNames(fn *ssa.Function) [][]string {
 	for i := 0; i < res.Len(); i++ {
 		named[res.At(i).Name()] = true
 	}
+	// ... and so do the names of the parameters (a parameter called err is not "the error result")
+	for i := 0; i < fn.Signature.Params().Len(); i++ {
+		named[fn.Signature.Params().At(i).Name()] = true
+	}
 	for i := 0; i < res.Len(); i++ {
 		if alias := fmt.Sprintf("r%d", i); !named[alias] {
 			out[i] = append(out[i], alias)
@@ -280,19 +284,25 @@ func (x *Exec) applyContract(st *State, pk *Pkg, fn *ssa.Function, fc *FuncContr
 }
 
 func (x *Exec) applyContract1(st *State, pk *Pkg, fn *ssa.Function, fc *FuncContract, args []Val) Val {
-	o := x.o
-	seq := x.callSeq
-	x.callSeq++
-	label := ContractKey(fn)
 	x.callees[InstName(fn)] = true
 	if fc.Trusted {
 		// an axiom: the contract is assumed, nothing verifies it
 		x.trusted["TRUSTED AXIOM (contract assumed, never verified): "+InstName(fn)] = true
 	}
+	return x.applyContractD(st, pk, descOfFn(fn), fc, args)
+}
+
+// applyContractD: the call is replaced by its contract - preconditions become obligations, assigned memory is
+// havocked, the results are fresh (or pure applications) constrained by the postconditions.
+func (x *Exec) applyContractD(st *State, pk *Pkg, d calleeDesc, fc *FuncContract, args []Val) Val {
+	o := x.o
+	seq := x.callSeq
+	x.callSeq++
+	label := d.Label
 	pre := st.clone()
-	env := &SpecEnv{x: x, pk: pk, vars: map[string]SVal{}, pre: pre, post: nil, tparams: tparamMap(fn), allocPre: pre.Alloc}
-	for i, p := range fn.Params {
-		env.vars[p.Name()] = SVal{V: args[i], T: p.Type()}
+	env := &SpecEnv{x: x, pk: pk, vars: map[string]SVal{}, pre: pre, post: nil, tparams: d.TParams, allocPre: pre.Alloc}
+	for i, n := range d.PNames {
+		env.vars[n] = SVal{V: args[i], T: d.PTypes[i]}
 	}
 	for _, g := range fc.Ghost {
 		env.vars[g.Tags[0]] = env.eval(g.E) // named values of the call's pre-state
@@ -316,13 +326,13 @@ func (x *Exec) applyContract1(st *State, pk *Pkg, fn *ssa.Function, fc *FuncCont
 	x.assume(o.Ge(na, o.Add(st.Alloc, o.Int(1<<20))))
 	st.Alloc = na
 	// results
-	res := fn.Signature.Results()
-	names := resultNames(fn)
+	res := d.Sig.Results()
+	names := d.RNames
 	vals := make([]Val, res.Len())
 	var pureVals []Val
-	if fc.Pure {
+	if fc.Pure && d.Fn != nil {
 		// the results of a pure function *are* its uninterpreted applications to the arguments' contents
-		pureVals = x.pureResults(fn, fc, args, pre)
+		pureVals = x.pureResults(d.Fn, fc, args, pre)
 	}
 	for i := 0; i < res.Len(); i++ {
 		if pureVals != nil && pureVals[i] != nil {
@@ -335,12 +345,18 @@ func (x *Exec) applyContract1(st *State, pk *Pkg, fn *ssa.Function, fc *FuncCont
 		}
 	}
 	env.post = st
+	// whether the callee's own execution went through a recovered panic is not observable by the caller
+	env.calleePanicked = o.Fresh(fmt.Sprintf("c%d.panicked", seq), BoolSort)
 	for i := range vals {
 		for _, n := range names[i] {
 			env.vars[n] = SVal{V: vals[i], T: res.At(i).Type()}
 		}
 	}
 	for _, c := range fc.Ensures {
+		if strings.Contains(c.Text, "ucall(") {
+			// speaks about the results of the callee's own calls of unknown callees: nothing a caller can observe
+			continue
+		}
 		t := x.evalClauseOf(env, c, fc)
 		if c.Bound {
 			x.harvestBounds(t)
@@ -384,6 +400,22 @@ func (x *Exec) havocTarget(st *State, env *SpecEnv, target string, tag string) {
 			panic(r)
 		}
 	}()
+	if id, ok := ex.(*EIdent); ok && id.Name == "heap" {
+		// all byte memory
+		st.H = o.Fresh("H."+tag, o.HeapSort())
+		return
+	}
+	if id, ok := ex.(*EIdent); ok && id.Name == "reports" {
+		// the ghost report counter of TestingT: it may grow
+		cur, _ := st.Ghost["reports"].(*Term)
+		if cur == nil {
+			cur = o.Int(0)
+		}
+		nv := o.Fresh(tag+".reports", IntSort)
+		x.assume(o.Le(cur, nv))
+		st.Ghost["reports"] = nv
+		return
+	}
 	if call, ok := ex.(*ECall); ok {
 		if id, ok := call.Fun.(*EIdent); ok && id.Name == "decoder" && len(call.Args) == 1 {
 			// the ghost state of a json decoder: cursor, depth and position flags change; the document does not
@@ -619,9 +651,25 @@ func (x *Exec) invoke(st *State, site ssa.Instruction, c *ssa.CallCommon) Val {
 	if h, ok := invokeSchemas[key]; ok {
 		return h(x, st, recv, args, c)
 	}
+	if ev, ok := recv.(ErrVal); ok && c.Method.Name() == "Error" {
+		// err.Error(): the message component of the error value (calling it on a nil error panics)
+		x.oblige("nil", "invoke", []string{"C18.nopanic"}, "error value is not nil", st.Guard, x.o.Not(ev.Nil))
+		return x.errMsg(ev)
+	}
+	if strings.HasSuffix(key, "TestingT.Errorf") {
+		x.reportIfNot(st, x.o.False())
+		return nil
+	}
+	if strings.HasSuffix(key, "TestingT.Helper") || strings.HasSuffix(key, "TestingT.FailNow") {
+		return nil
+	}
 	// dispatch over the known dynamic types of the interface value (module types)
 	if iv, ok := recv.(IfaceVal); ok && iv.Sym == "" && len(iv.Pay) > 0 {
 		return x.invokeDispatch(st, iv, c, args)
+	}
+	if iv, ok := recv.(IfaceVal); ok && iv.Sym != "" {
+		// a method of an interface value of unknown dynamic type
+		return x.unknownCall(st, c, iv, args)
 	}
 	x.fail("interface method call %s is outside the verified subset", key)
 	return nil
@@ -700,8 +748,7 @@ func (x *Exec) invokeDispatch(st *State, iv IfaceVal, c *ssa.CallCommon, args []
 var invokeSchemas = map[string]func(x *Exec, st *State, recv Val, args []Val, c *ssa.CallCommon) Val{}
 
 func (x *Exec) callSymbolicFunc(st *State, fv FuncVal, args []Val, c *ssa.CallCommon) Val {
-	x.fail("call through symbolic function value %s is outside the verified subset", fv.Sym)
-	return nil
+	return x.unknownCall(st, c, nil, args)
 }
 
 // ---- defer / recover / panic -----------------------------------------------------------------------------------
@@ -747,6 +794,12 @@ func (x *Exec) runDefers(st *State) {
 func (x *Exec) recoverVal(st *State) Val {
 	// recover() outside a panicking context returns nil; panicking contexts are modelled by the
 	// callers of the `safe*` helpers through their contracts.
+	if x.panicking != nil {
+		v := *x.panicking
+		x.panicking = nil
+		x.recovered = true
+		return v
+	}
 	return IfaceVal{Tag: x.o.Int(0), Pay: map[int]Val{}}
 }
 
